@@ -198,3 +198,4 @@ def run(P, R, tier):
 
 
 EXPLANATION += " Also: the posterior precision of the probe's channel factor (identity + count-weighted U' Sigma^-1 U, counts multiplying, variances dividing), (OPT) optional factors, pooling of multi-statistics probes also inside helpers."
+EXPLANATION += ' (POL.client-placement) every factor of the client mean m + D z (+ V y) multiplies.'
